@@ -7,7 +7,7 @@
 // $Source$
 // $Revision$
 
-use fpdec_core::{i128_div_rounded, ten_pow, Round};
+use fpdec_core::{checked_mul_pow_ten, i128_div_rounded, ten_pow, Round};
 
 use crate::{Decimal, DecimalError};
 #[cfg(doc)]
@@ -39,7 +39,22 @@ impl Round for Decimal {
         if n_frac_digits >= self.n_frac_digits as i8 {
             self
         } else if n_frac_digits < self.n_frac_digits as i8 - 38 {
-            Self::ZERO
+            // 0 <= |self| < 10 ^ shift / 2, so the result is either zero or
+            // +/- 10 ^ -n_frac_digits, depending on sign and rounding mode
+            // only (like for +/- 1/3).
+            let coeff = i128_div_rounded(self.coeff.signum(), 3, None);
+            if coeff == 0 {
+                Self::ZERO
+            } else if let Some(coeff) =
+                checked_mul_pow_ten(coeff, n_frac_digits.unsigned_abs())
+            {
+                Self {
+                    coeff,
+                    n_frac_digits: 0,
+                }
+            } else {
+                panic!("{}", DecimalError::InternalOverflow);
+            }
         } else {
             // n_frac_digits < self.n_frac_digits
             let shift: u8 = (self.n_frac_digits as i8 - n_frac_digits) as u8;
@@ -89,7 +104,18 @@ impl Round for Decimal {
         if n_frac_digits >= self.n_frac_digits as i8 {
             Some(self)
         } else if n_frac_digits < self.n_frac_digits as i8 - 38 {
-            Some(Self::ZERO)
+            // see fn round
+            let coeff = i128_div_rounded(self.coeff.signum(), 3, None);
+            if coeff == 0 {
+                Some(Self::ZERO)
+            } else {
+                checked_mul_pow_ten(coeff, n_frac_digits.unsigned_abs()).map(
+                    |coeff| Self {
+                        coeff,
+                        n_frac_digits: 0,
+                    },
+                )
+            }
         } else {
             // n_frac_digits < self.n_frac_digits
             let shift: u8 = (self.n_frac_digits as i8 - n_frac_digits) as u8;
